@@ -150,7 +150,8 @@ def _run_structural(ctx):
 
     # ---------------- R2 detached tasks, owners of the tables
     r2 = ctx.rule("R2", "tasks run detached from connections; the task/state tables are written only by the scheduler's own methods", min_instances=3)
-    enq = idx.func(f"{LOCAL}:Scheduler.enqueue_task")
+    from ..inline import inlined as _inl
+    enq = _inl(ctx, idx.func(f"{LOCAL}:Scheduler.enqueue_task"))
     econ = f"{enq.module.relpath}::{enq.qual}"
     created = awaited = False
     task_var = None
@@ -232,6 +233,11 @@ def _run_structural(ctx):
                 keys_ok = False
     rets = [n for n in walk_no_nested(enq.node) if isinstance(n, ast.Return)]
     ret_ok = all(isinstance(r.value, ast.Name) and r.value.id == tid_var for r in rets) and rets
+    if not (keys_ok and n_stores >= 2 and ret_ok):
+        from .evalhelpers import eval_enqueue
+        _o, _m = eval_enqueue(ctx)
+        if "error" not in _o and _o.get("ret") == 7 and set((_o.get("tasks") or {})) == {7} and set((_o.get("states") or {})) == {7}:
+            keys_ok, n_stores, ret_ok = True, 2, True   # decided by evaluating enqueue_task with fresh id 7
     r3.check(keys_ok and n_stores >= 2 and ret_ok, econ + "::keys", "task and state stored under, and the request answered with, the fresh id",
              "enqueue_task does not store the task and its state under the fresh id and return that same id", enq.where)
     fld = info["cls"].field(info["tidgen"]) if info["tidgen"] else None
